@@ -387,7 +387,7 @@ class XsdElement(XsdComponent, ParticleMixin,
             if head_element.type.name != nm.XSD_ANY_TYPE:
                 # Set the type with head element's type for validate content
                 # ref: https://www.w3.org/TR/xmlschema-1/#cElement_Declarations
-                self.type = head_element.type
+                self._set_type(head_element.type)
         elif not self.type.is_derived(head_element.type):
             msg = _("{0!r} type is not of the same or a derivation "
                     "of the head element {1!r} type")
